@@ -8,7 +8,7 @@ for pf in $1/patch_*.diff; do
   git apply $pf || { echo "  does not apply"; continue; }
   go build ./... || { echo "  does not build"; git checkout -- .; continue; }
   for p in $(/verif/bin/rjverif list | cut -d' ' -f1); do
-    out=$(VERIF_DIR=/tmp/benign_out /verif/bin/rjverif check $p 2>&1)
+    out=$(VERIF_DIR=/tmp/benign_out timeout 600 /verif/bin/rjverif check $p 2>&1)
     if echo "$out" | grep -q "^VIOLATION"; then
       echo "  ALARM $p"; echo "$out" | grep -E "^  (VIOLATION|UNDECIDED)" | head -3 | cut -c1-280
     fi
